@@ -646,7 +646,7 @@ HARNESSES = [
     Harness("H19u", h19u, quick=dict(n=40), thorough=dict(n=400), pattern="environment stub (clock) + exhaustive regime product", requires=["unique"], selfcheck=False),
     Harness("H19b", h19b, pattern="exhaustive choice product through the real Betdaq polling path", requires=["batch"], selfcheck=False),
     Harness("H19d", h19d, pattern="exhaustive choice product through the real adoption path", requires=["round-trip"], selfcheck=False),
-    Harness("H19c", h19c, quick=dict(n_events=3), thorough=dict(n_events=4), pattern="P3 bounded history (schedule symbolic, strings concrete)",
+    Harness("H19c", h19c, quick=dict(n_events=3), thorough=dict(n_events=5), pattern="P3 bounded history (schedule symbolic, strings concrete)",
             requires=["adopted", "ignored"], selfcheck=False),
     Harness("H19", h19, pattern="AST->SMT (z3 sequences)", requires=["reference"], selfcheck=False,
             outside=["distinctness of uuid.uuid1().time across calls and threads (CPython / libuuid) - trusted", "sha1 (name hash) - trusted",
